@@ -346,6 +346,9 @@ SRCTIE = {
     "Grenad.SrcTie.EntriesInsert": ("SrcSorter", ["EntryBound", "EntryBoundAlignedBuffer", "EntryBoundAlignedBuffer.deref", "EntryBoundAlignedBuffer.new", "Entries", "Entries.remaining", "Entries.entry_size",
                                                    "Entries.fits", "Entries.memory_usage", "Entries.reallocate_buffer", "Entries.insert", "Sorter", "Sorter.threshold_exceeded",
                                                    "Sorter.write_chunk", "Sorter.merge_chunks", "Sorter.insert"]),
+    "Grenad.SrcTie.MergeWrite": ("SrcMerger,SrcMergerIter,SrcWriter,SrcMergeWrite", ["Entry", "Entry.cmp", "MergerIter", "MergerIter.next", "Merger", "Merger.into_stream_merger_iter", "Merger.write_into_stream_writer", "DEFAULT_INDEX_KEY_INTERVAL", "BlockWriterBuilder", "BlockWriterBuilder.new",
+                                                 "BlockWriterBuilder.index_key_interval", "BlockWriterBuilder.build", "BlockWriter.builder",
+                                                 "BlockWriter.last_key", "Writer", "WriterBuilder.build", "Writer.insert", "Writer.into_inner"]),
     "Grenad.SrcTie.Compression": ("SrcCompression", ["CompressionType", "compress", "decompress"]),
     "Grenad.SrcTie.MergerIter": ("SrcMerger,SrcMergerIter", ["Entry", "Entry.cmp", "MergerIter", "MergerIter.next", "Merger", "Merger.into_stream_merger_iter"]),
     "Grenad.SrcTie.MergerIterNext": ("SrcMerger,SrcMergerIter", ["Entry", "Entry.cmp", "MergerIter", "MergerIter.next", "Merger", "Merger.into_stream_merger_iter"]),
@@ -361,7 +364,7 @@ for _p, _mods in {"C14": ["Varint", "Block", "C14Src"], "C13": ["Meta", "C13Src"
                   "C01": ["BlockWriter", "Varint", "Meta", "Block", "BlockCursor", "TBlockSrc", "BuiltSrc", "NoPanic", "EndToEnd", "BlockLoad", "WriterBlock", "WriterLemmas", "WriterCut", "WriterInsert", "WriterFinish", "WriterRun", "WriterBounds", "WriterBuild", "Compression", "ReaderCursorTie", "ReaderCursorTieStep", "ReaderE2E", "ReaderE2EIdx", "ReaderE2EGen", "ReaderE2ESmoke", "ReaderTotalBase", "ReaderTotalIdx", "ReaderTotal", "ReaderTotalSmoke", "FullRoundTrip"],
                   "C02": ["BlockCursor", "Smoke", "TBlockSrc", "NoPanic", "IndexCursorLoad", "IndexCursorIter", "IndexCursor", "ReaderCursorTie", "ReaderCursorTieStep", "ReaderE2E", "ReaderE2EIdx", "ReaderE2EGen", "ReaderTotal"],
                   "C03": ["IndexCursorLoad", "IndexCursorInit", "IndexCursorIter", "IndexCursorRec", "IndexCursor", "IndexCursorSmoke", "ReaderCursorTie", "ReaderCursorTieStep", "ReaderE2E", "ReaderE2EIdx", "ReaderE2EGen", "ReaderE2ESmoke", "ReaderTotalBase", "ReaderTotalIdx", "ReaderTotal", "ReaderTotalSmoke"],
-                  "C16": ["IndexCursorLoad", "IndexCursorInit", "IndexCursorIter", "IndexCursorRec", "IndexCursor", "ReaderCursorTie", "ReaderCursorTieStep"], "C06": ["Merger", "MergerIter", "MergerIterNext", "MergerIterStep", "MergerIterRun", "MergerBuilder"], "C11": ["CountWrite"], "C08": ["Sorter", "SorterInsert", "SorterBuilder", "EntriesInsert"], "C07": ["Sorter", "SorterInsert", "EntriesInsert"], "C17": ["Sorter", "EntriesInsert"]}.items():
+                  "C16": ["IndexCursorLoad", "IndexCursorInit", "IndexCursorIter", "IndexCursorRec", "IndexCursor", "ReaderCursorTie", "ReaderCursorTieStep"], "C06": ["Merger", "MergerIter", "MergerIterNext", "MergerIterStep", "MergerIterRun", "MergerBuilder", "MergeWrite"], "C11": ["CountWrite"], "C08": ["Sorter", "SorterInsert", "SorterBuilder", "EntriesInsert"], "C07": ["Sorter", "SorterInsert", "EntriesInsert"], "C17": ["Sorter", "EntriesInsert"]}.items():
     PROPS[_p]["srctie"] = ["Grenad.SrcTie." + m for m in _mods]
 
 
